@@ -239,7 +239,13 @@ def gen_seq(rng, n, tier):
         k = [rng.choice([1, 2, 3]) for _ in range(rng.choice([3, 3, 5]))]
         m = rng.randint(len(k), len(k) + 5)
         coords = [[float(rng.choice([0, 1, 2, -3, 7, 0.5, 2.25])) for _ in range(m)] for _ in range(3)]
-        out.append({'k': k, 'xyz': coords, 'dim': rng.choice([['x', 'y', 'z'], ['x', 'y'], ['x'], ['z']])})
+        c = {'k': k, 'xyz': coords, 'dim': rng.choice([['x', 'y', 'z'], ['x', 'y'], ['x'], ['z']])}
+        if rng.random() < 0.4:                      # the dimensions may also name analytical features: one is filtered along with the coordinates
+            c['fname'] = rng.choice(['xy', 'yz', 'xyz', 'speed', 'dxy', 'zx', 'a'])
+            c['fvals'] = [float(rng.choice([0, 1, 2, -3, 7, 0.5, 2.25])) for _ in range(m)]
+            if rng.random() < 0.3:
+                c['dim'] = []
+        out.append(c)
     return out
 
 
@@ -248,8 +254,15 @@ def run_seq(case):
     flt = sys.modules['tracklib.algo.filtering']
     tr = mktrack(*case['xyz'])
     t0 = [str(o.timestamp) for o in tr]
-    out = flt.filter_seq(tr, [float(v) for v in case['k']], list(case['dim']))
-    return {'x': enc(out.getX()), 'y': enc(out.getY()), 'z': enc(out.getZ()), 'same_t': t0 == [str(o.timestamp) for o in out], 'n': out.size()}
+    dim = list(case['dim'])
+    if case.get('fname'):
+        tr.createAnalyticalFeature(case['fname'], list(case['fvals']))
+        dim.append(case['fname'])
+    out = flt.filter_seq(tr, [float(v) for v in case['k']], dim)
+    res = {'x': enc(out.getX()), 'y': enc(out.getY()), 'z': enc(out.getZ()), 'same_t': t0 == [str(o.timestamp) for o in out], 'n': out.size()}
+    if case.get('fname'):
+        res['f'] = enc(out.getAnalyticalFeature(case['fname']))
+    return res
 
 
 def coq_seq(case, obs):
@@ -259,6 +272,8 @@ def coq_seq(case, obs):
     for nm, c in zip('xyz', case['xyz']):
         filt = nm in case['dim']
         rows.append('(%s, %s, %s)' % (coq_bool(filt), coq_list(optq(v) for v in c), coq_list(optq(v) for v in obs[nm])))
+    if case.get('fname'):
+        rows.append('(true, %s, %s)' % (coq_list(optq(v) for v in case['fvals']), coq_list(optq(v) for v in obs['f'])))
     return '(%s, %s)' % (coq_list(q(v) for v in case['k']), coq_list(rows))
 
 
@@ -274,6 +289,10 @@ def oracle_seq(case, obs):
                 return r
         elif obs[nm] != c:
             return 'filter_seq on %r changed coordinate %s' % (case['dim'], nm)
+    if case.get('fname'):
+        r = check_out(case['fvals'], case['k'], False, obs['f'], 'filter_seq feature ' + case['fname'])
+        if r:
+            return r
     return None
 
 
